@@ -782,15 +782,19 @@ func (s *session) checkBeginString(msg *Message) MessageRejectError {
 	return nil
 }
 
+// drainMessageIn empties the buffered inbound channel of a connection that is being given up, so
+// that its reader is not left blocked. The messages are not processed: the logout notification
+// has been made and the connection's output is closed, so nothing may be delivered or answered
+// any more; their sequence numbers stay unconsumed and are recovered by the resend procedure on
+// the next connection.
 func (s *session) drainMessageIn() {
-	s.log.OnEventf("Draining %d messages from inbound channel...", len(s.messageIn))
+	s.log.OnEventf("Discarding %d messages from inbound channel...", len(s.messageIn))
 	for {
 		select {
-		case fixInc, ok := <-s.messageIn:
+		case _, ok := <-s.messageIn:
 			if !ok {
 				return
 			}
-			s.Incoming(s, fixInc)
 		default:
 			return
 		}
